@@ -1016,6 +1016,9 @@ fn restore_twin<E: Est>(tree: &TreeTrace, data: &[E::Item], st: &mut Stats) -> R
 
 fn pick_policy(rng: &mut Rng, n: usize) -> Policy {
     let chain_ok = n <= 2048;
+    if rng.below(11) == 0 || (n > 4000 && rng.chance(0.5)) {
+        return Policy::Lopsided;
+    }
     match rng.below(20) {
         0..=6 => Policy::Length,
         7..=12 => Policy::Composition,
@@ -1167,6 +1170,7 @@ impl RScenario {
             Policy::LeftChain => st.bump("policy.left_chain"),
             Policy::RightChain => st.bump("policy.right_chain"),
             Policy::Balanced => st.bump("policy.balanced"),
+            Policy::Lopsided => st.bump("policy.lopsided"),
             Policy::Single => st.bump("policy.single_pass"),
         }
         let mut tr = RTrace {
